@@ -246,7 +246,7 @@ FAMILIES = [
     Family('nested', fam_cond,
            quick=dict(shapes=['(X&Y)|Z', '(X|Y)&Z', '(X&Y)&(Z|X)'], xk=[F1], yk=[TR],
                       zk=[F2], nchanges=2),
-           thorough=dict(shapes=['(X&Y)|Z', '(X|Y)&Z', 'X&Y&Z', '(X&Y)&(Z|X)'], xk=[F1, TR],
+           thorough=dict(shapes=['(X&Y)|Z', '(X|Y)&Z', 'X&Y&Z', '(X&Y)&(Z|X)'], xk=[F1],
                          yk=[TR, F2], zk=[F2, AFTER, DONE], nchanges=2, _max_paths=900000,
                          _max_wall=1200),
            reach=['(X&Y)|Z', '(X|Y)&Z', '(X&Y)&(Z|X)', 'resumed'],
